@@ -244,6 +244,13 @@ let handle kind a =
            let bs = bytes_of_hex a.(8) in
            Some (showf (convert_bcf_vcf_blocks (fmt_of tab) strings contigs h
                           (nat_of_int (List.length bs + 1)) (nat_of_int 0) bs)))
+  | "cvvh" ->
+      let tab = if a.(0) = "-" then [] else ftab a.(0) in
+      let lines = if a.(1) = "_" then [] else List.map bytes_of_hex (split_on ',' a.(1)) in
+      (match convert_vcf_bcf_hfile (prs_of tab) (bytes_of_hex a.(2)) lines with
+       | HvOk out -> Some ("Ok:" ^ hex_of_bytes out)
+       | HvRec (_, VvPanic) -> Some "Panic"
+       | HvReadHeaderErr | HvWriteHeaderErr | HvRec _ -> Some "Err")
   | _ -> None
 
 let () = run_driver handle
